@@ -60,6 +60,68 @@ CLAIMS = {
             'by creating real Savable class hierarchies per case (~870 per quick run) and comparing saved states and loaded objects.',
             'DESIGN.md section 4 C19', COMMON_NOTE + 'copy.deepcopy faithful on plain data (hypothesis). "Copied at save time" is checked on the implementation by the oracle (the original is mutated after save; identity probes).',
             'Coq proof: load(save o) = declared-member projection under compatible loaders + vm_compute correspondence'),
+
+    'C01': ('Machine-checked proof (Coq) over the life-cycle model M1 (Life/Model.v, Life/Run.v: state machine, hooks, pause/play/kill/resume/fail, interrupt '
+            'actions, the stepping coroutine defunctionalised, the event loop as a FIFO of callbacks): in EVERY run -- any program, any listener scripts calling '
+            'back into the process re-entrantly, any list of environment events (control calls, late callbacks incl. raising ones, cancellation of the future, '
+            'completions, ticks) placed anywhere between loop callbacks, no bound -- the recorded state entries form a history of the documented life-cycle graph '
+            'starting at CREATED, every entry leaves exactly the current state, and once a terminal state is entered no later event changes the state or enters '
+            'any state. State.ALLOWED is proved equal to the documented graph and to the table re-extracted from /repo on every run. Tied to the code by running '
+            'real scripted processes under a controlled scheduler on ~3.2k (program, schedule) cases per quick run.',
+            'DESIGN.md section 4 C01', COMMON_NOTE + 'Hooks that raise are excluded (cf_fault = None), as the property says; they are C03\'s subject.',
+            'Coq proof: two-world legality relation preserved by every model operation (wp calculus), lifted to all runs by induction + vm_compute correspondence'),
+    'C13': ('Machine-checked proof (Coq) over M1: the command mapping (Continue/Wait/value/Stop/UnsuccessfulResult/Kill -> next state with exact arguments) and '
+            'the resume forwarding as equations; one iteration of the stepping loop from ANY quiet world (symbolic execution of the model on a world of '
+            'variables): the step run is exactly the one the RUNNING state names with its arguments and the state entered is exactly the one the command '
+            'denotes; and, by induction on the chain and on the list of resume values, for EVERY program made of commands and every output specification the '
+            'whole run (construct, loop callback, resume + loop callback ...) executes exactly the steps of a reference interpreter of the commands and ends '
+            'in the denoted state. Restore half: round trip of the CREATED/RUNNING/WAITING payload (proved for C08). Tied to the code by ~500 real chains per '
+            'quick run, each also restored from a Bundle taken at every state entry.',
+            'DESIGN.md section 4 C13', COMMON_NOTE + 'Chain theorems are for quiet worlds (no pause/kill requests, no listener scripts, no injected fault) and steps without awaits/outputs; the interplay with pause/kill is C04-C06. The restore half on the implementation is checked by the oracle.',
+            'Coq proof: symbolic execution (wp calculus + computation) of one loop iteration, induction over chains and resume lists + vm_compute correspondence'),
+    'C07': ('Machine-checked proof (Coq) over the model of Process/WorkChain persistence (Persist/ProcSave.v: save_instance_state / load_instance_state / recreate_from '
+            'key by key on top of the Savable model): for every savable process record, load(save p) is defined and equals p (traceback dropped), saving the loaded '
+            'process yields the same bundle (idempotence, also through any identity medium and for a second generation), every observable accessor is preserved, a '
+            'paused process is restored paused; the member and key tables are proved equal to those re-extracted from /repo on every run. Tied to the code by '
+            'snapshots of real processes and workchains at every state entry and schedule point (240 cases quick) under deepcopy, pickle and YAML and 7 loader configurations.',
+            'DESIGN.md section 4 C07', COMMON_NOTE + 'PARTIAL: deepcopy, pickle and YAML are a Section variable with the hypothesis medium = id (tested per snapshot); the stepper round trip is a hypothesis here and a theorem of C08.',
+            'Coq proof: load . save = id and save . load . save = save on the process record + facts tables by reflexivity + vm_compute correspondence'),
+    'C08': ('Machine-checked proof (Coq) over the outline-stepper model (Outline/StepperPersist.v on top of M2): every stepper reachable from the initial one is consistent '
+            'with its outline; recreate(save_stepper s) = s for consistent steppers; the RUNNING/WAITING/CREATED payload round-trips; and for EVERY well-formed outline, '
+            'user step/predicate functions, user state and EVERY function assigning a number of consecutive restores to each step boundary, the run with restores equals '
+            'the uninterrupted run (trace, ctx, result). Foreign continuations / steps are rejected. Tied to the code by ~3.6k real restore experiments per quick run '
+            '(Bundle -> deepcopy|pickle -> unbundle in a fresh loop, 1-3 times, every subset of <= 3 crash points among the first 8 boundaries).',
+            'DESIGN.md section 4 C08', COMMON_NOTE + 'Hypotheses: well-formed outline, functions bound under their own name, bundle codec = identity.',
+            'Coq proof: consistency invariant + save/recreate round trip + induction on executed steps for arbitrary restore schedules + vm_compute correspondence'),
+    'C10': ('Machine-checked proof (Coq) over the barrier model (Outline/Barrier.v: ctx, awaitables of the step, the Waiting state\'s awaiting map, done-callbacks, FIFO ready '
+            'queue; events Complete k outcome / Tick): for every program, every number of awaited items, every completion order and placement between callbacks, a step '
+            'that starts after a wait finds every awaited future completed with a value and ctx[key] equal to it; while any item is pending no step starts; the first '
+            'failing completion ends the chain EXCEPTED with that exception and no later step starts; once all completed and the queue drained the next step has started; '
+            'no exception escapes a completion callback. Tied to the code by ~4.3k real WorkChain runs per quick run with plain futures and launched children.',
+            'DESIGN.md section 4 C10', COMMON_NOTE + 'No pause/kill events in this model (C06\'s subject); futures are not cancelled (outside the quantifier).',
+            'Coq proof: one invariant carried by induction over the event list + vm_compute correspondence'),
+    'C16': ('Machine-checked proof (Coq) over a layer around M1 (Comms/Rpc.v): message dispatch is a pure function mapping each intent to exactly the documented call with '
+            'the message text (status synchronous, unknown intent an error scheduling nothing, foreign broadcast subjects ignored); the world after the scheduled rpc '
+            'callback equals the world after the direct control call at that point and the reply is the call\'s result with nested futures unwrapped (via C20); a whole '
+            'remote run equals the M1 run of the computed direct schedule; the announcements are exactly state_changed.<from>.<to> for the consecutive entered states, '
+            'once each, in order; a tolerated broadcast failure changes nothing else; both subscriptions are removed exactly once iff closed. Tied to the code by twin runs '
+            '(real RemoteProcessThreadController / RemoteProcessController over LoopCommunicator vs direct calls) on ~3.3k cases per quick run.',
+            'DESIGN.md section 4 C16', COMMON_NOTE + 'PARTIAL: single loop thread and a synchronous in-process communicator; thread and broker interleavings cannot be exhibited.',
+            'Coq proof: pure dispatch, rpc callback = direct call (equality of worlds), announcements by induction over the trace + vm_compute correspondence'),
+    'C17': ('Machine-checked proof (Coq) over the launcher model (Comms/Launcher.v on the abstract (pid, tag) map of C14): a rejected task (unknown type, persist or continue '
+            'without persister) replies TaskRejected and leaves persister and process set unchanged; create/launch/continue functional specifications (persists iff asked, '
+            'pid for create/nowait else the outcome, continue loads exactly the requested checkpoint); class resolution goes through the configured loader with precedence; '
+            'create(persist); continue == launch(persist) on reply, events and final map under coherent loaders (and the hypothesis is shown necessary); history theorems '
+            'by induction over task lists. Tied to the code by ~1.5k real ProcessLauncher histories per quick run over no / in-memory / pickle persisters and 3x3 loaders.',
+            'DESIGN.md section 4 C17', COMMON_NOTE + 'PARTIAL: the communicator path is not modelled; histories are sequential (loop drained after every reply); processes are abstracted by run_to_end (Section variable).',
+            'Coq proof: functional specs of the launcher over the abstract snapshot map, induction over task histories + vm_compute correspondence'),
+    'C18': ('Machine-checked proof (Coq) over the context model (Comms/Ctx.v: every task carries its own copy of the process stack, _process_scope frames, call_soon, launch, '
+            'nested execute, hook dispatch of transitions, control calls direct or deferred): for every table of processes, every schedule and fuel, whenever user code of '
+            'process p of any kind (step, continuation, output hook, scheduled callback, life-cycle hook) executes, current() = p; the stack of a task is always the inherited '
+            'stack plus its open scopes, scope entries/exits are well bracketed and restore exactly the entry stack, a step of one task touches no other task\'s stack, a '
+            'spawned task inherits its creator\'s stack. Tied to the code by ~900 real multi-process runs per quick run with current() sampled in every function and hook.',
+            'DESIGN.md section 4 C18', COMMON_NOTE + 'PARTIAL: CPython contextvars copy-on-task-creation is a hypothesis; the schedule is an input (nothing is proved about which schedules asyncio produces).',
+            'Coq proof: stack = inherited ++ open scopes invariant over all schedules + vm_compute correspondence'),
 }
 
 NOT_YET = 'check under construction in this build session (model/theorems not committed yet); see DESIGN.md section 4'
